@@ -121,25 +121,29 @@ def harnesses(tier: str) -> List[H]:
     for kind in kinds:
         for cmode in (0, 1, 2):
             for d1 in ((0,) if kind == "func" else (0, 1, 2)):
-                params = [I("a0", 0, 2), I("b0", 0, 2), I("s0", 0, 1)]
-                defaults = {"cmode": cmode, "d1": d1, "i0": 0, "a1": 0, "b1": 0, "p2": True, "p3": True, "q2": True,
-                            "v0": True, "w0": True}
-                if kind == "method":
-                    params += [I("i0", 0, 1)]
-                if d1 == 2:
-                    params += [I("a1", 0, 2 if tier == "thorough" else 1), I("b1", 0, 1)]
-                params += [B("br"), B("p0"), B("p1"), B("q0"), B("q1")]
-                if d1 == 2:
-                    params += [B("p2"), B("q2")] + ([B("p3")] if tier == "thorough" else [])
-                if kind == "method":
-                    params += [B("v0"), B("w0")]
-                name = "diff_{}_c{}{}".format(kind, cmode, "" if kind == "func" else "_d%d" % d1)
-                out.append(H(name, bind(run_diff, (kind,), ALL, defaults, [p.name for p in params]), params,
-                             tiers=(tier,), timeout=600,
-                             family="kind={} rendered with def and async def; conditions/captures on the async rendering: {}; "
-                                    "pre 0..2, post 0..2, snapshot 0..1{}; subclass level {}; body returns / raises".format(
-                                        kind, ["plain", "coroutine functions (suspending)", "plain functions returning awaitables"][cmode],
-                                        ", invariant 0..1" if kind == "method" else "",
-                                        ["absent", "not overriding", "overriding"][d1]),
-                             family_size=18 * (2 if kind == "method" else 1) * (1 if d1 < 2 else 4) * 2))
+                a1_values = [None] if d1 != 2 else ([0, 1] if tier == "quick" else [0, 1, 2])
+                for a1 in a1_values:
+                    params = [I("a0", 0, 2), I("b0", 0, 2), I("s0", 0, 1)]
+                    defaults = {"cmode": cmode, "d1": d1, "i0": 0, "a1": 0 if a1 is None else a1, "b1": 0, "p2": True,
+                                "p3": True, "q2": True, "v0": True, "w0": True}
+                    if kind == "method":
+                        params += [I("i0", 0, 1)]
+                    if d1 == 2:
+                        params += [I("b1", 0, 1)]
+                    params += [B("br"), B("p0"), B("p1"), B("q0"), B("q1")]
+                    if d1 == 2:
+                        params += [B("p2"), B("q2")] + ([B("p3")] if tier == "thorough" else [])
+                    if kind == "method":
+                        params += [B("v0"), B("w0")]
+                    name = "diff_{}_c{}{}{}".format(kind, cmode, "" if kind == "func" else "_d%d" % d1,
+                                                    "" if a1 is None else "a%d" % a1)
+                    out.append(H(name, bind(run_diff, (kind,), ALL, defaults, [p.name for p in params]), params,
+                                 tiers=(tier,), timeout=600,
+                                 family="kind={} rendered with def and async def; conditions/captures on the async rendering: {}; "
+                                        "pre 0..2, post 0..2, snapshot 0..1{}; subclass level {}; body returns / raises".format(
+                                            kind, ["plain", "coroutine functions (suspending)",
+                                                   "plain functions returning awaitables"][cmode],
+                                            ", invariant 0..1" if kind == "method" else "",
+                                            ["absent", "not overriding", "overriding with %s own preconditions" % a1][d1]),
+                                 family_size=18 * (2 if kind == "method" else 1) * (1 if d1 < 2 else 2) * 2))
     return out
